@@ -543,6 +543,13 @@ pub fn gen_case<'a>(pool: &'a [PoolKey], workload: &str, seed: u64, index: u64) 
 			};
 			spec.kid = gen_kid(&mut rng);
 		},
+		// CRLs beyond 64 KiB
+		"huge" => {
+			if index >= 2 {
+				return None;
+			}
+			spec.revoked = (0..3500 + index * 700).map(|_| gen_rev(&mut rng)).collect();
+		},
 		"keys" => {
 			if index >= pool.len() as u64 * 2 {
 				return None;
@@ -606,7 +613,7 @@ pub fn gen_case<'a>(pool: &'a [PoolKey], workload: &str, seed: u64, index: u64) 
 	})
 }
 
-pub const WORKLOADS: [&str; 7] = ["entry-lattice", "updates", "issuer-ku", "serials", "sizes", "keys", "random"];
+pub const WORKLOADS: [&str; 8] = ["entry-lattice", "updates", "issuer-ku", "serials", "sizes", "keys", "huge", "random"];
 
 pub fn run(ctx: &Ctx, prop: Prop, pool: &[PoolKey], n_random: u64) {
 	for wl in WORKLOADS {
